@@ -44,6 +44,7 @@ fn cmd_sim(args: &[String]) -> i32 {
             "fuzzloop" => gen::gen_fuzzloop(seed, n),
             "cfgrun" => gen::gen_cfgrun(seed, n),
             "long" => gen::gen_long(seed, n),
+            "unpriv" => gen::gen_unpriv(seed, n),
             f => {
                 eprintln!("unknown family {f}");
                 return 2;
